@@ -50,6 +50,35 @@ def prepare(_):
                         if -90 <= q[1] <= 90:
                             around.add(a5.lonlat_to_cell(q, r))
                 clusters.append((f'f{f:02d}r{r:02d}', r, [tuple(v) for v in ring], [tuple(a5.cell_to_lonlat(y)) for y in sorted(around)]))
+    # polar clusters: high-latitude points for which the neighbour search needs its second (tangent-plane) pass - found by counting, with
+    # the schedule explorer's site counter, calls of the estimate helper that do not come from the first pass
+    from vf import sched as _sched
+    prefix = os.path.dirname(os.path.realpath(a5.__file__)) + os.sep
+    need2 = {3: [], 9: []}
+    cand = []
+    for sgn in (1, -1):
+        for i in range(60):
+            for d in (9.5, 7.3, 5.1, 2.7, 0.9, 0.2):
+                cand.append(((i * 6.0 + d) % 360 - 180, sgn * (90.0 - d)))
+    for r in need2:
+        for pt in cand:
+            if len(need2[r]) >= 7:
+                break
+            try:
+                cnt = _sched.Explorer(prefix, 'line').count_sites(lambda: a5.lonlat_to_cell(pt, r))
+            except Exception:
+                break
+            per_func = {}
+            for (fn, func, line), n in cnt.items():
+                per_func.setdefault(func, {})[line] = n
+            first = lambda f: (min(per_func[f].items())[1] if f in per_func else 0)
+            if first('_spherical_to_estimate') > first('_lonlat_to_estimate'):
+                need2[r].append(pt)
+    for r, pts in need2.items():
+        if len(pts) < 3:      # fall back to points that needed the second pass on the pinned tree
+            pts = [(-33.218299099680046, -84.91007734884018), (-30.59405475538334, -82.89311063022787), (-46.00618373625746, -84.69818693286045),
+                   (-44.81536919939957, -87.27720708515018), (-47.09162366839446, -87.32531927448322)]
+        clusters.append((f'polar_r{r:02d}', r, pts[:7], [(0.0, 89.0), (0.0, -89.0)], 3))
     # low resolutions have their own code paths (face pentagon, quintant triangles): cells and points for faces 0, 5, 11
     low = []
     for f, tri, kind, p, res, cell in geo:
@@ -90,6 +119,9 @@ def pure_menu(k):
         ('cell_to_children:quad_b', 'cell_to_children', (sib[1],), False),
         ('cell_to_children:quad_mut', 'cell_to_children', (sib[2],), True),
         ('uncompact:one_level', 'uncompact', ([sib[3]], 8), False),
+        ('uncompact:nothing_to_expand', 'uncompact', ([sib[0], sib[1], sib[2]], 7), True),
+        ('compact:nothing_to_merge', 'compact', ([sib[0], sib[2]],), True),
+        ('cell_to_children:same_resolution', 'cell_to_children', (c7, 7), True),
         ('compact:plain', 'compact', (list(sib[:7]),), False),
         # calls that are rejected are calls too: they must leave nothing behind
         ('error:uncompact_finer_after_valid', 'uncompact', ([res0[2], sib[0], c7], 6), False),
@@ -317,8 +349,13 @@ def run(tier, t0):
     # ---- tie clusters: all histories of length 2 inside each cluster (boundary points x centres of the surrounding cells)
     cl_tasks = []
     cl_menus = []
-    for tag, r, bpts, centres in k['clusters']:
-        if tier == 'quick' and r not in (3, 8, 29):
+    deep_clusters = []
+    for cl in k['clusters']:
+        tag, r, bpts, centres = cl[:4]
+        depth = cl[4] if len(cl) > 4 else 2
+        if depth == 3:
+            deep_clusters.append(len(cl_menus))
+        if tier == 'quick' and r not in (3, 8, 9, 29):
             continue
         evs = [(f'tie:{tag}:b{i}', 'lonlat_to_cell', (bp, r), False) for i, bp in enumerate(bpts)]
         evs += [(f'tie:{tag}:c{i}', 'lonlat_to_cell', (cp, r), False) for i, cp in enumerate(centres)]
@@ -346,6 +383,25 @@ def run(tier, t0):
                 acc.n['validated'] += 1
             if h is not None and h not in seen:
                 seen[h] = [hist[0][0], name]
+    # clusters marked depth 3 (polar): all histories of length 3
+    cl3 = []
+    for ci in deep_clusters:
+        if ci < len(cl_menus):
+            evs = cl_menus[ci]
+            for e1 in evs:
+                for e2 in evs:
+                    cl3.append(([e1, e2], evs, expected))
+    for (hist, evs, _), res in zip(cl3, many(history.expand, cl3)):
+        hh, outs, problems = res
+        for i, r2, prob, h in outs:
+            acc.n['transitions'] += 1
+            name = evs[i][0]
+            if r2 != expected[name] or prob:
+                acc.violation(f'c17:{hist[0][0]}+{hist[1][0]}->{name}', f'after {hist[0][0]} and {hist[1][0]}: {name} {evs[i][2]} ' + (prob or 'returned a value different from the pristine single call'),
+                              {'history': [hist[0][0], hist[1][0]], 'event': name, 'cluster': evs})
+            else:
+                acc.n['validated'] += 1
+    acc.strata['polar_cluster_depth3_histories'] = len(cl3)
     acc.strata['tie_clusters'] = len(cl_menus)
     acc.strata['tie_cluster_histories'] = len(cl_tasks)
     phase('clusters')
